@@ -268,7 +268,9 @@ M("m81e", "C20", "R20.3", VI, "        if self.max_checkpoints < 0:\n           
 M("m81f", "C20", "R20.3", PVI, "        if self.gamma == 1.0 and self.period < 2:", "        if self.gamma == 1.0 and self.period < 1:", "PVI: period 1 accepted for gamma == 1", survives="(yes)")
 M("m64c", "C20", "R20.4", FOREST, '_target_: str = "mdpax.problems.forest.Forest"', '_target_: str = "mdpax.problems.forests.Forest"', "Forest _target_ typo")
 B("b11", ["C20"], VI, "        if self.epsilon <= 0:\n            raise ValueError(\"epsilon must be positive\")", "        if not self.epsilon > 0:\n            raise ValueError(\"epsilon must be positive\")", "guard spelled with not >")
-B("b18", ["C20"], VI, "        if not 0 <= self.gamma <= 1:", "        if self.gamma < 0 or self.gamma > 1:", "gamma guard as a disjunction")
+# (b18, the gamma guard respelled as a disjunction, was listed as behaviour-preserving until the eighth wave: it differs for NaN - seed S130 - and is now m167)
+M("m167", "C20", "R20.15", VI, "        if not 0 <= self.gamma <= 1:", "        if self.gamma < 0 or self.gamma > 1:", "gamma guard as a disjunction: accepts NaN")
+B("b18", ["C20"], VI, "        if not 0 <= self.gamma <= 1:", "        if not (self.gamma >= 0 and self.gamma <= 1):", "gamma guard as a negated conjunction (rejects NaN like the chain)")
 B("b19", ["C20"], LOGGING, "    decimal_places = max(0, min(decimal_places, max_decimals))", "    decimal_places = min(max(decimal_places, 0), max_decimals)", "clamp in the other nesting order")
 B("b20", ["C20"], PI, "        if self.max_eval_iter <= 0:", "        if self.max_eval_iter < 1:", "integer guard as < 1")
 
